@@ -189,7 +189,9 @@ class Case:
         self.out.append(("finding", cls, what, self.rep(**kw)))
 
     def broken(self, stage, detail):
-        self.out.append(("broken", None, stage, {"detail": detail[-2000:], "seed": self.g.sc.seed,
+        if len(detail) > 3000:
+            detail = detail[:1800] + "\n[...]\n" + detail[-1000:]
+        self.out.append(("broken", None, stage, {"detail": detail, "seed": self.g.sc.seed,
                                                  "features": list(self.g.sc.features), "schema": self.g.sc.sdl}))
 
     def stream_class(self):
@@ -202,14 +204,14 @@ class Case:
 def run_case(g, thorough: bool) -> Case:
     cs = Case(g, thorough)
     rng = random.Random(g.sc.seed * 7919 + 1)
-    gs = build_schema(g.sc.sdl)
+    gs = g.gs_harness          # built and fully resolved in the main thread by run()
     cfg = g.res.get("config", {}) or g.sc.config
     snake = cfg.get("convert_to_snake_case", True)
     scalars_cfg = cfg.get("scalars")
     # the schema object the generator works on: built from SDL, or (introspected variant) from the introspection
     # result, where fields have no SDL node and the default literal is re-rendered from the coerced default
     introspected = getattr(g, "introspected", False)
-    gsm = build_client_schema(introspection_from_schema(gs)) if introspected else gs
+    gsm = g.gsm_harness if introspected else gs
     cs.d("schema_source", "introspection" if introspected else "sdl")
     ssx, csx = ci.schema_sx(gsm), ci.customs_sx(scalars_cfg)
 
@@ -562,6 +564,15 @@ def run_case(g, thorough: bool) -> Case:
     return cs
 
 
+def resolve_all(gs):
+    """force graphql-core's lazy field maps (and the default coercion they perform) now"""
+    for t in gs.type_map.values():
+        fs = getattr(t, "fields", None)
+        if fs and isinstance(t, GraphQLInputObjectType):
+            for f in fs.values():
+                f.default_value  # noqa: B018
+
+
 def serve_schemas(sdls):
     """loopback HTTP server: POST /<i> executes the received (introspection) query on schema i"""
     import threading
@@ -643,6 +654,26 @@ def run(ctx):
             gi.introspected = True
             gens.append(gi)
 
+        # harness-side schema objects are built here, in the main thread, fully resolved; a scenario whose schema
+        # the harness itself cannot build is a generator problem: it is dropped and counted, never a violation
+        usable = []
+        for g in gens:
+            try:
+                if not inputs_schema.valid_sdl(g.sc.sdl):
+                    raise ValueError("generator produced an invalid schema")
+                g.gs_harness = build_schema(g.sc.sdl)
+                resolve_all(g.gs_harness)
+                if getattr(g, "introspected", False):
+                    g.gsm_harness = build_client_schema(introspection_from_schema(g.gs_harness))
+                    resolve_all(g.gsm_harness)
+                usable.append(g)
+            except Exception as exc:  # noqa
+                run.dist("scenarios", "dropped: harness could not build the generated schema (generator issue)")
+                run.extra.setdefault("dropped_scenarios", []).append({"seed": g.sc.seed, "why": str(exc)[:200]})
+        if len(usable) < len(gens) * 0.8:
+            run.broken("scenario generator", f"only {len(usable)} of {len(gens)} generated scenarios are usable")
+        gens = usable
+
         def one(g):
             try:
                 return run_case(g, ctx.thorough)
@@ -650,7 +681,9 @@ def run(ctx):
                 import traceback
 
                 cs = Case(g, ctx.thorough)
-                cs.broken("harness-exception", traceback.format_exc())
+                tb = traceback.format_exc()
+                mine = [l for l in tb.splitlines() if "/vh/" in l]
+                cs.broken("harness-exception", "harness frames: " + " | ".join(mine[:12] + mine[-6:]) + "\n" + tb)
                 return cs
 
         cases = scen.parallel(gens, one, jobs=12)
